@@ -47,7 +47,9 @@ theorem fixBroken_stays (f : Bytes) (start : Nat) (h : start = 0 ∨ isApeAt f (
     · simp [h]
     · by_cases h0 : start = 0
       · simp [h0]
-      · simp [h0, h]
+      · by_cases h24 : start < 24
+        · simp [h0, h24]
+        · simp [h0, h24, h]
 
 /-- `_APEv2Data` on `audio ++ tag` where `tag` is what `APEv2.save` writes: the tag is found by its
 footer, starts where the audio ends and ends with the file -/
@@ -69,6 +71,7 @@ theorem locate_tag (audio : Bytes) (items : List Ape.Item) (hs : ((items.map Ape
   have hP : (audio ++ H ++ body).length = audio.length + 32 + body.length := by simp [lH]; omega
   unfold locate findMetadata
   simp only []
+  rw [if_neg (by rw [hlen]; omega)]
   have hp1 : (audio ++ (H ++ body ++ F)).length - 32 = (audio ++ H ++ body).length + 0 := by rw [hlen]; omega
   have hape : isApeAt (audio ++ (H ++ body ++ F)) ((audio ++ (H ++ body ++ F)).length - 32) = true := by
     unfold isApeAt
@@ -154,6 +157,7 @@ theorem locate_tag_v1 (audio v1 : Bytes) (items : List Ape.Item)
   have hn : ((P ++ F) ++ v1).length = P.length + 160 := by simp [lF, lv]
   unfold locate findMetadata
   simp only []
+  rw [if_neg (by rw [hn]; omega)]
   -- no footer in the last 32 bytes (they belong to the ID3v1 block)
   have hnot : isApeAt ((P ++ F) ++ v1) (((P ++ F) ++ v1).length - 32) = false := by
     have : ((P ++ F) ++ v1).length - 32 = (P ++ F).length + 96 := by simp [lF, lv]
@@ -167,6 +171,7 @@ theorem locate_tag_v1 (audio v1 : Bytes) (items : List Ape.Item)
     rw [this, readAt_append_right]
     unfold readAt; simpa using tv
   rw [if_neg (by rw [htag]; simp)]
+  rw [if_neg (by rw [hn]; omega)]
   have hp2 : ((P ++ F) ++ v1).length - 125 - 35 = P.length + 0 := by rw [hn]; omega
   have hape : isApeAt ((P ++ F) ++ v1) (((P ++ F) ++ v1).length - 125 - 35) = true := by
     unfold isApeAt
